@@ -478,7 +478,7 @@ impl Prop for P {
             vec(interval_strategy(1e6), 8..=8),
             vec(step, 1..=4),
             vec(vec(0u16..=1000, 8..=8), 2..=8),
-            0u8..=(PAIRS.len() as u8),
+            prop_oneof![3 => Just(0u8), 7 => 1u8..=(PAIRS.len() as u8)],
         )
             .prop_map(|(dag, outs, boxes, steps, samples, backend)| Case {
                 dag,
